@@ -274,13 +274,20 @@ class SimulationMaximumStep(SimulationWithJumpTimes):
             return jump_times, jump_values
 
         def _build_finer_grid(self, jump_times, jump_values):
-            dts = np.diff(jump_times, prepend=0)
+            # the maturity is added (and removed at the end) so that the last step, up to the maturity, is capped like
+            # the others and a path without any jump is refined too
+            jump_values = np.asarray(jump_values)
+            if jump_values.shape[-1]:
+                last_value = jump_values[..., -1:]
+            else:
+                last_value = np.zeros(jump_values.shape[:-1] + (1,))
+            dts = np.diff(np.append(jump_times, maturity), prepend=0)
             if not any(dts > epsilon):
                 return jump_times, jump_values
 
             positions = np.flatnonzero(dts > epsilon)
             aug_dts = dts
-            aug_jump_values = jump_values
+            aug_jump_values = np.concatenate((jump_values, last_value), axis=-1)
             while positions.size > 0:
                 aug_dts[positions] -= epsilon
                 aug_dts = np.insert(aug_dts, positions, epsilon)
@@ -293,7 +300,7 @@ class SimulationMaximumStep(SimulationWithJumpTimes):
                 positions = np.flatnonzero(aug_dts > epsilon)
             aug_jump_times = np.cumsum(aug_dts)
 
-            return aug_jump_times, aug_jump_values
+            return aug_jump_times[:-1], aug_jump_values[..., :-1]
 
         return _build_finer_grid_default if epsilon >= maturity else _build_finer_grid
 
@@ -306,8 +313,5 @@ class SimulationMaximumStep(SimulationWithJumpTimes):
 
     def simulate_jumps(self):
         jump_times, jump_values = super().simulate_jumps()
-
-        if jump_times.size == 0:
-            return jump_times, jump_values
 
         return self.build_finer_grid(jump_times, jump_values)
